@@ -7,7 +7,7 @@ import hashlib, json, os, random, re, shutil, subprocess, time
 from common import *  # noqa: F403
 import cfg_suite
 
-PROPS = ["C02", "C03", "C04", "C08", "C09", "C12", "C14", "C18", "C19"]
+PROPS = ["C02", "C03", "C04", "C08", "C09", "C12", "C14", "C18", "C19", "C20"]
 VIOL_RE = re.compile(r'^"?MONITOR-VIOLATION (C\d+) @(\d+) (.*?)"?$')
 
 
